@@ -2,9 +2,13 @@
    Over ANY real field: the probability vector BRAIN computes is, entry for entry, base times the coefficients of
    the product polynomial prod_e (Q_e/q_e0)^(n_e), and the centre masses are H_k / G_k -- where Q_e is the polynomial
    the code extracts from element e.  Whether Q_e is the element's true isotope polynomial is decided per element of
-   the regenerated table in the correspondence run (that is where the known findings F12 / F14 live). *)
+   the regenerated table in the correspondence run (that is where the known findings F12 / F14 live).
+   The first formulation of these theorems (without the non-zero constant terms) was REFUTED in Coq
+   (brain_prob_false / brain_center_false in alg/BrainAlgebra.v: an element whose lightest isotope has abundance or
+   mass 0); the side condition is decided on the regenerated table below. *)
 From mathcomp Require Import all_ssreflect all_algebra.
-From CE Require Import Num TableTypes TableModel Brain BrainSpec NumMC BrainAlgSpec BrainAlgebra.
+From mathcomp Require Import ssrZ.
+From CE Require Import Num TableTypes TableModel Brain BrainSpec NumMC BrainAlgSpec BrainAlgebra Table.
 Set Implicit Arguments. Unset Strict Implicit. Unset Printing Implicit Defensive.
 Import GRing.Theory Num.Theory.
 Local Open Scope ring_scope.
@@ -14,24 +18,37 @@ Section C03.
   Notation NR := (NumR R).
 
   Theorem C03_brain_prob : forall (c : bcomp) (order_req : BinNums.Z) (base : R) o pv cv,
-    bcomp_ok c = true ->
+    bcomp_ok c = true -> bcomp_pos c = true ->
     brain_vectors NR c order_req base = Some (o, pv, cv) ->
     forall k, (k <= o)%N -> nth 0 pv k = base * (Geff R c)`_k.
   Proof. exact: (@brain_prob R). Qed.
 
   Theorem C03_brain_center : forall (c : bcomp) (order_req : BinNums.Z) (base : R) o pv cv,
-    bcomp_ok c = true -> base != 0 ->
+    bcomp_ok c = true -> bcomp_pos c = true -> base != 0 ->
     brain_vectors NR c order_req base = Some (o, pv, cv) ->
     forall k, (k <= o)%N -> (Geff R c)`_k != 0 -> nth 0 cv k = (Heff R c)`_k / (Geff R c)`_k.
   Proof. exact: (@brain_center R). Qed.
 
   (* and the vectors exist whenever the composition is in the domain and the resolved order is not negative *)
   Theorem C03_brain_defined : forall (c : bcomp) (order_req : BinNums.Z) (base : R),
-    bcomp_ok c = true -> (BinInt.Z.leb 0 (resolve_order order_req (max_variants c))) = true ->
+    bcomp_ok c = true -> (BinInt.Z.leb BinNums.Z0 (resolve_order order_req (max_variants c))) = true ->
     exists o pv cv, brain_vectors NR c order_req base = Some (o, pv, cv)
                     /\ o = BinInt.Z.to_nat (resolve_order order_req (max_variants c))
                     /\ (o < size pv)%N /\ size cv = o.+1.
   Proof. exact: (@brain_defined R). Qed.
+
+  (* without the side condition the statement is false: machine-checked counterexamples *)
+  Theorem C03_brain_prob_unconditional_refuted :
+    ~ (forall (c : bcomp) (order_req : BinNums.Z) (base : R) o pv cv,
+         bcomp_ok c = true -> brain_vectors NR c order_req base = Some (o, pv, cv) ->
+         forall k, (k <= o)%N -> nth 0 pv k = base * (Geff R c)`_k).
+  Proof. exact: (@brain_prob_false R). Qed.
 End C03.
 
+(* every element of the regenerated table satisfies both side conditions *)
+Theorem C03_table_ok :
+  List.forallb (fun p => brain_elem_ok (snd p) && elem_tail_pos (snd p)) (build_table table_src) = true.
+Proof. vm_compute. reflexivity. Qed.
+
 Print Assumptions C03_brain_prob. Print Assumptions C03_brain_center. Print Assumptions C03_brain_defined.
+Print Assumptions C03_brain_prob_unconditional_refuted. Print Assumptions C03_table_ok.
